@@ -26,7 +26,13 @@ class Ctx:
         if self.skip(name):
             return None
         t0 = time.time()
-        r = solve.check(list(hyps) + [z3.Not(goal)], get_values=inputs, timeout=self.cap, solvers=solvers, diff=diff)
+        r = None
+        pre = self.model_by_evaluation(hyps, goal, inputs)
+        if pre is not None:
+            r = {"result": "sat", "model": pre, "solver": "model found by concrete evaluation of the query (then replayed natively)",
+                 "time": round(time.time() - t0, 3), "per_solver": {}}
+        if r is None:
+            r = solve.check(list(hyps) + [z3.Not(goal)], get_values=inputs, timeout=self.cap, solvers=solvers, diff=diff)
         res = {"name": f"smt:{name}", "engine": f"smt:mir2smt[{backend}] z3-4.8.12|z3-5.1.0|cvc5-1.0 portfolio",
                "functions": functions, "bounds": bounds, "assumes": assumes, "outside": outside,
                "per_solver": r.get("per_solver"), "time_s": r.get("time"), "solver": r.get("solver")}
@@ -51,6 +57,39 @@ class Ctx:
             res["reason"] = r.get("reason")
         self.results.append(res)
         return res
+
+
+def _model_by_evaluation(self, hyps, goal, inputs, tries=48):
+    """cheap search for a satisfying assignment of  hyps /\\ not goal  by evaluating the formula on boundary / pseudo-random
+    values of the inputs. Only ever used to FIND a counterexample faster than the SAT solvers do on hash-like
+    arithmetic; an unsat verdict always comes from a solver."""
+    import random
+    ins = [v for v in inputs if z3.is_bv(v) or z3.is_bool(v)]
+    if not ins or len(ins) != len(inputs):
+        return None
+    rnd = random.Random(12345)
+    f = z3.And(list(hyps) + [z3.Not(goal)])
+    pats = [lambda w: 0, lambda w: (1 << w) - 1, lambda w: 1 << (w - 1), lambda w: (1 << (w - 1)) - 1, lambda w: 0x80 % (1 << w)]
+    for k in range(tries):
+        sub, model = [], {}
+        for v in ins:
+            if z3.is_bool(v):
+                val = bool(rnd.getrandbits(1)) if k >= 2 else bool(k)
+                sub.append((v, z3.BoolVal(val))); model[str(v)] = val
+            else:
+                w = v.size()
+                val = pats[k](w) if k < len(pats) else (rnd.getrandbits(w) if k % 3 else (rnd.getrandbits(w) | int("80" * ((w + 7) // 8), 16)) % (1 << w))
+                sub.append((v, z3.BitVecVal(val, w))); model[str(v)] = val
+        try:
+            e = z3.simplify(z3.substitute(f, *sub))
+        except Exception:
+            return None
+        if z3.is_true(e):
+            return model
+    return None
+
+
+Ctx.model_by_evaluation = _model_by_evaluation
 
 
 def merged_return(paths, be):
